@@ -2,8 +2,6 @@ From PV.Model Require Import Machine Rich Relocs Strings Iters ItersMore.
 From PV.Spec Require Import Deque.
 Require Import ExtrOcamlBasic.
 Extraction Language OCaml.
-(* slice_impl = deleg_impl (fun x => x) is an application: OCaml would not generalise it (value restriction) *)
-Extraction Inline slice_impl.
 Extraction "../ocaml/gen/iters_model.ml" m_step m_run items
   rich_impl rich_impl_orig rich_records_iter rich_next Rich.try_from
   blk_impl blk_next blk_measure str_impl str_next str_measure pgo_impl pgo_next pgo_measure
@@ -12,4 +10,5 @@ Extraction "../ocaml/gen/iters_model.ml" m_step m_run items
   range_impl map_impl zip_impl erase
   exp_iter_impl exp_names_impl exp_names_start exp_nidx_impl exp_nidx_start
   res_all res_named res_id entries_impl wrap_entries_impl wrap_slice_impl wrap_int_impl icons_impl icons_start
-  out_eqb outs_eqb.
+  out_eqb outs_eqb
+  slice_impl exc_functions_impl sections_iter_impl filter_map_impl to_strs_impl to_strs_start.
